@@ -50,8 +50,10 @@ def analyse_function(fd, summaries):
     refreshed = set()
     calls = []
     for node in ast.walk(fd):
-        if isinstance(node, (ast.Global, ast.Nonlocal)):
-            raise TranslateError(f"{fd.name}: global/nonlocal")
+        # `nonlocal x` in a nested helper re-binds a local NAME of the enclosing function (not an object): nested bodies are
+        # analysed together with their parent over one view map, so it needs no special treatment.  `global` is refused.
+        if isinstance(node, ast.Global):
+            raise TranslateError(f"{fd.name}: global")
     # pass 1: view aliases (iterate to a fixpoint; assignments in program order are over-approximated)
     changed = True
     while changed:
@@ -120,33 +122,39 @@ def analyse_function(fd, summaries):
 
 
 def translate(repo):
-    funcs = {}
+    funcs = {}       # key -> FunctionDef ; module-level functions under their name, nested helpers under "parent.<name>"
+    byname = {}      # plain name -> [keys]   (a call by name may reach any of them: over-approximation)
     for m in MODULES:
         tree = ast.parse(open(os.path.join(repo, "src/pyfvtool", m + ".py")).read())
         for n in tree.body:
             if isinstance(n, ast.FunctionDef):
                 funcs[n.name] = n
+                byname.setdefault(n.name, []).append(n.name)
+                for sub in ast.walk(n):
+                    if isinstance(sub, ast.FunctionDef) and sub is not n:
+                        key = f"{n.name}.<{sub.name}>@{sub.lineno}"
+                        funcs[key] = sub
+                        byname.setdefault(sub.name, []).append(key)
     info = {name: analyse_function(fd, None) for name, fd in funcs.items()}
     writes = {name: set(info[name][2]) for name in funcs}
     changed = True
     while changed:
         changed = False
         for name, (params, views, _, calls, _r) in info.items():
-            for callee, args in calls:
-                if callee not in info:
-                    continue
-                cparams = info[callee][0]
-                cvar = funcs[callee].args.vararg.arg if funcs[callee].args.vararg else None
-                for i, a in enumerate(args):
-                    if isinstance(a, ast.Starred):
-                        r = root_name(a.value)
-                        tgt = [p for p in cparams]
-                    else:
-                        r = root_name(a)
-                        tgt = [cparams[i]] if i < len(cparams) else ([cvar] if cvar else [])
-                    if r in views and any(t in writes[callee] for t in tgt):
-                        if views[r] not in writes[name]:
-                            writes[name].add(views[r]); changed = True
+            for callee_name, args in calls:
+                for callee in byname.get(callee_name, []):
+                    cparams = info[callee][0]
+                    cvar = funcs[callee].args.vararg.arg if funcs[callee].args.vararg else None
+                    for i, a in enumerate(args):
+                        if isinstance(a, ast.Starred):
+                            r = root_name(a.value)
+                            tgt = [p for p in cparams]
+                        else:
+                            r = root_name(a)
+                            tgt = [cparams[i]] if i < len(cparams) else ([cvar] if cvar else [])
+                        if r in views and any(t in writes[callee] for t in tgt):
+                            if views[r] not in writes[name]:
+                                writes[name].add(views[r]); changed = True
     for p in PUBLIC:
         if p not in funcs:
             raise TranslateError(f"public function {p} not found")
